@@ -2,12 +2,13 @@ import Canopy.Proof.DexArith
 import Canopy.Proof.DexInv
 import Canopy.Proof.DexPoints
 import Canopy.Proof.DexHold
+import Canopy.Proof.DexRun
 /-!
 # C20 — escrow, order-book and AMM accounting is exact
 
 Part 1 AMM arithmetic (`swap_safe`, `withdraw_le_share`, deposit points) · Part 2 order book and escrow
-(`escrow_eq` along every run, `close_exact_once`) · Part 3 liquidity points (`points_sum_*`, per function) ·
-Part 4 holding pool (`holding_*`, per function, partial).
+(`escrow_eq` along every run, `close_exact_once`) · Part 3 DEX invariants along every run (`holding_eq`,
+`points_sum`) with their per-function lemmas · Part 5 the un-gated liveness fallback (observation + witness).
 
 Part 1: the AMM arithmetic. `Canopy.Gen.Dex.SafeComputeDY`, `SafeMulDiv`, `SqrtProductUint64` are the
 definitions REGENERATED from `fsm/dex.go` / `lib/util.go` on every run (`big.Int` → `Nat`, `.Uint64()` →
@@ -304,19 +305,52 @@ theorem duplicate_close_is_noop {s : State} {chain : Nat} {id : Bytes} (hi : SIn
     simp [orSkip, (gone_finds_nothing hnone).1]
 
 /-!
-# Part 3 — liquidity points: Σ points = total
+# Part 3 — the DEX invariants along every run: holding pool = Σ pending, Σ points = total
 
-`PointsOk p` : the points table of pool `p` sums to `p.total` (a `uint64`). Every function of the model that
-writes the table keeps it: `AddPoints`, `handleBatchWithdraw` (also used for the forced eviction of the lowest
-holder), `handleBatchDeposit` with `handleCappedBatchDeposit` (incumbents, ranking, free slot, eviction,
-rejection), in both the local and the remote role. The liveness fallback copies the counter chain's table
-verbatim (`SetPoolPoints(remote.PoolPoints, remote.TotalPoolPoints)`), so it keeps the identity exactly when the
-remote table has it.
+`DInv s`: every pool of the state has Σ points = `TotalPoolPoints` (and `uint64` balance and total); every stored
+next/locked batch sits under its own committee id and carries withdrawal percents ≤ 100; and for every valid chain
+the holding pool equals the Σ of the amounts of the orders and deposits stored in next(chain) ∪ locked(chain).
 
-This is `points_sum` at the level of the table-writing functions. NOT proved: the composition into an invariant
-of `run` (that no other operation writes the table, and that stored withdrawals carry a percent ≤ 100); the Go
-oracle checks Σ points = total on the real state after every operation instead.
+`run_dinv` proves `DInv` over EVERY sequence of modelled operations (`DexAdmissible`: the holding pool stays below
+2^64 on a limit order / deposit; certificate chain ids ≤ `MaxChainId`; the remote pool size is a `uint64`; a fallback
+batch carries a consistent table). The transient case is modelled exactly: with a zero ledger `handleBatchDeposit`
+returns early and debits nothing, and the subsequent `HandleDexBatchOrders` fails the whole operation
+(`eff_applyReceipts`, `eff_executeRemote`), so only successful operations have to keep the identity. Covered: the
+three DEX messages, `HandleDexBatch` (receipt matching, order receipts, local and remote withdrawals and deposits
+with the provider cap — ranking, free slot, eviction, rejection with refund —, AMM execution, liveness fallback,
+rotation), `IncludeSameBlockDex`, and all sell-order operations (which touch neither).
 -/
+
+/-- **holding_eq.** Along every admissible run, for every chain:
+holding pool = Σ amounts of pending DEX orders and deposits in next ∪ locked. -/
+theorem holding_eq (s₀ : State) (ops : List Op) (h₀ : DInv s₀) (hadm : DexAdmissible s₀ ops) (c : Nat) (hc : c ≤ maxChainId) :
+    (getPool (run s₀ ops) (holdingId c)).amount = pendStored (run s₀ ops) c :=
+  (run_dinv h₀ hadm).hold c hc
+
+/-- **points_sum.** Along every admissible run, for every pool: Σ points = `TotalPoolPoints`. -/
+theorem points_sum (s₀ : State) (ops : List Op) (h₀ : DInv s₀) (hadm : DexAdmissible s₀ ops) (id : Nat) :
+    ptsSum (getPool (run s₀ ops) id).points = (getPool (run s₀ ops) id).total :=
+  ((run_dinv h₀ hadm).pools id).pts.sum
+
+/-- … both from an empty genesis state -/
+theorem dex_invariants_from_genesis (self root height minOrder : Nat) (hh : 0 < height) (ops : List Op)
+    (hadm : DexAdmissible { self, root, height, minOrder } ops) :
+    (∀ c, c ≤ maxChainId → (getPool (run { self, root, height, minOrder } ops) (holdingId c)).amount
+        = pendStored (run { self, root, height, minOrder } ops) c) ∧
+    (∀ id, ptsSum (getPool (run { self, root, height, minOrder } ops) id).points
+        = (getPool (run { self, root, height, minOrder } ops) id).total) :=
+  ⟨fun c hc => holding_eq _ ops (dinv_init self root height minOrder hh) hadm c hc,
+   fun id => points_sum _ ops (dinv_init self root height minOrder hh) hadm id⟩
+
+/-- non-vacuity: a funded pool, two limit orders and a deposit — 350 tokens are pending and held -/
+example :
+    let s := run {} [.fund addrA 1000, .setPool (liquidityId 2) { amount := 500, points := [(deadAddr, 7)], total := 7 },
+      .limit 2 { amount := 100, requested := 1, addr := addrA, id := id1 },
+      .deposit 2 { amount := 200, addr := addrA, id := id1 },
+      .limit 2 { amount := 50, requested := 1, addr := addrA, id := id1 }]
+    holdAmt s 2 = 350 ∧ pendStored s 2 = 350 ∧ ptsSum (getPool s (liquidityId 2)).points = 7 := by decide
+
+/-! ## the per-function statements behind `points_sum` (kept as lemmas) -/
 
 /-- `Pool.AddPoints` keeps Σ points = total (and does not touch the amount) -/
 theorem points_sum_addPoints {p p' : Pool} {a : Bytes} {n : Nat} (hp : PointsOk p) (hn : n < U64)
@@ -351,24 +385,9 @@ example :
      | .error _ => false) = true := by decide
 
 /-!
-# Part 4 — the holding pool (partial)
+## the per-function statements behind `holding_eq` (kept as lemmas)
 
-Full statement (`holding_eq`): for every chain, after every operation,
-`pool(chain + HoldingPoolAddend) = Σ amounts of the orders and deposits in next(chain) ∪ locked(chain)`.
-
-Proved here (`holding_eq_partial`), per function, with `holdAmt s c` the holding pool's balance and
-`Batch.pending` the Σ of a batch's order and deposit amounts:
-* in — a DEX limit order / liquidity deposit moves exactly its amount into the holding pool and adds exactly that
-  amount to the pending Σ of the next batch (the locked batch is untouched);
-* out — applying the receipts of our locked batch debits the holding pool by exactly Σ of its orders
-  (`HandleOrderReceipts`, success and failure alike); the liveness fallback debits it by exactly the whole
-  pending Σ of the locked batch (orders and deposits) and drops the batch.
-
-NOT proved: the deposit leg of the receipts phase (`handleBatchDeposit` with `local = true` debits each accepted or
-refused deposit, but returns early — debiting nothing — when a ledger is zero; the identity survives only because
-`HandleDexBatchOrders` then fails the whole operation), rotation/inclusion (pure moves between next and locked),
-and the composition into an invariant of `run`. The Go oracle evaluates the full identity on the real state after
-every operation of every case instead.
+`holdAmt s c` is the holding pool's balance, `Batch.pending` the Σ of a batch's order and deposit amounts.
 -/
 
 /-- in: `HandleMessageDexLimitOrder` -/
